@@ -43,7 +43,8 @@ MANIFEST = {
             "renorm_weight_invariant: with a pixel-wise backward operator the result does not depend on which positive weights are "
             "used). Partial: float32 rounding (oracle tolerance 1e-5); the range theorems are over the reals (sizes of exact "
             "intermediates), the step to IEEE rounding is the standard model, not proved; outside 2^-60..2^60 (per pixel: largest "
-            "magnitude over coils) only finiteness is judged — observed on the implementation (notes in the evidence): with 1 coil the "
+            "magnitude over coils) the judgement is finite and bounded (sum |S|^2 <= 4) over the whole float32 exponent range "
+            "2^-149..2^127 incl. mixed magnitudes — observed on the implementation (notes in the evidence): with 1 coil the "
             "maps stay unit from 2^-74 up to 2^63, become 0 at 2^64 (norm Inf, x/Inf = 0) and from 2^-75 down (squares underflow to "
             "0); with 64 coils they are 0 already at 2^61 (the sum of 128 squares overflows), exactly where range_bound_attained "
             "puts the limit. ESPIRiT's "
@@ -70,7 +71,11 @@ ASSUMPTIONS = [
     "correspondence inputs are integer-valued with a perfect-square squared sum over coils at every pixel (sqrt exact); 0/1 ACS masks; "
     "sigma in {None, 0, 1/2, 1, 2, -1/2}; widths 1..10 for the window coordinates; mask values 0/1 and 0/2/3 (where, not product)",
     "oracle: unit-or-zero within 1e-5, finiteness, for float32 magnitudes 2^-60 <= |x| <= 2^60 per pixel (largest magnitude over coils; "
-    "boundary included, up to 64 coils); outside only finiteness is judged (stated partial)",
+    "boundary included, up to 64 coils); outside that range — the whole exponent ladder 2^-149 (smallest denormal) … 2^127, uniform, "
+    "exact powers of two, a block of pixels, mixed across coils, mixed across pixels — the judgement is: finite, and sum over coils of "
+    "|S|^2 <= 4 (a pixel whose squares under/overflow may lose its normalisation but no entry may blow up), on the transform (identity "
+    "and real inverse FFT, with and without Gaussian, planted ESPIRiT calibrator), the engine (plain, refined, 3-D per slice), every "
+    "engine class and JointICNet's own normalisation",
     "the real ESPIRiT path is exercised only where it is defined: 2-D, calibration matrix with rows >= columns, at least one non-zero coil",
     "simulate_sensitivity_maps is checked in complex128 within 1e-9",
 ]
